@@ -168,8 +168,6 @@ class InternalCompiler(Compiler):
         return dest
 
     def compile_or(self, qc, expr, dest=None) -> int:
-        # TODO: this won't work on len(expr.args) > 2
-
         # 1. Compile every argument
         erets = list(map(lambda e: self.compile_expr(qc, e), expr.args))
 
@@ -181,13 +179,23 @@ class InternalCompiler(Compiler):
         if dest in erets:
             erets.remove(dest)
 
-        # . Perform the CX between all args and dest
         erets = list(set(erets))
-        for i in erets:
-            qc.cx(i, dest)
+        if len(erets) <= 2:
+            # . Perform the CX between all args and dest
+            for i in erets:
+                qc.cx(i, dest)
 
-        # 4. Perform the MCX between all args
-        qc.mcx(erets, dest)
+            # 4. Perform the MCX between all args (a | b = a ^ b ^ (a & b))
+            if len(erets) == 2:
+                qc.mcx(erets, dest)
+        else:
+            # 4. More than two args: De Morgan, a | b | c = ~(~a & ~b & ~c)
+            for i in erets:
+                qc.x(i)
+            qc.mcx(erets, dest)
+            for i in erets:
+                qc.x(i)
+            qc.x(dest)
 
         # 5. Mark ancilla every argument and return
         [qc.mark_ancilla(eret) for eret in erets]
